@@ -175,7 +175,10 @@ def build_template(case):
         kw["strict_undefined"] = True  # every name a template uses here is defined: the outcome must not change
     if not case.get("modblock"):
         kw["imports"] = IMPORTS
-    inner_expr = "${" + case.get("sp0", "") + expr + ftxt + case.get("sp3", "") + "}"
+    # a comment closing the expression / the filter list (ended by a line break: the rest of the line belongs to it)
+    tc1 = case.get("tc1") or ""
+    tc2 = (case.get("tc2") or "") if local else ""
+    inner_expr = "${" + case.get("sp0", "") + expr + tc1 + ftxt + tc2 + case.get("sp3", "") + "}"
     if site == "expr":
         text = head + "[" + inner_expr + "]"
         exp = "[" + str(apply(ref_pipeline(local, Deff, P), value)) + "]"
@@ -187,11 +190,11 @@ def build_template(case):
         out = str(apply(fl, content))
         attr = ' filter="%s"' % ", ".join(fl).replace('"', "'") if fl else ""
         if site == "def":
-            text = head + '<%%def name="dd()"%s><${%s}&></%%def>[${dd() | n}]' % (attr, expr)
+            text = head + '<%%def name="dd()"%s><${%s}&></%%def>[${dd() | n}]' % (attr, expr + tc1)
         elif site == "block":
-            text = head + '[<%%block name="bb"%s><${%s}&></%%block>]' % (attr, expr)
+            text = head + '[<%%block name="bb"%s><${%s}&></%%block>]' % (attr, expr + tc1)
         else:
-            text = head + '[<%%block%s><${%s}&></%%block>]' % (attr, expr)
+            text = head + '[<%%block%s><${%s}&></%%block>]' % (attr, expr + tc1)
         exp = "[" + out + "]"
     elif site == "text":
         fl = [f for f in local if f != "n"]
@@ -204,7 +207,7 @@ def build_template(case):
         inner = str(apply(ref_pipeline([], Deff, P), value))
         content = "<" + inner + ">"
         ret = apply(list(BF), content)
-        text = head + '<%%def name="bd()" buffered="True"><${%s}></%%def>[${bd()%s}]' % (expr, ftxt)
+        text = head + '<%%def name="bd()" buffered="True"><${%s}></%%def>[${bd()%s}]' % (expr + tc1, ftxt + tc2)
         exp = "[" + str(apply(ref_pipeline(local, Deff, P), ret)) + "]"
     else:
         raise AssertionError(site)
@@ -321,6 +324,8 @@ def strategies():
         "BF": st.sampled_from([[], ["fc"]]), "value": value, "ctx_filters": st.booleans(), "modblock": st.booleans(),
         "sp0": sp, "sp1": sp, "sp2": sp, "sp3": sp, "sep": st.sampled_from([",", ", ", " , "]),
         "strict": st.sampled_from([False, False, True]),
+        "tc1": st.sampled_from([None, None, None, " # the value\n", "  # not } | nope\n ", "#\n"]),
+        "tc2": st.sampled_from([None, None, None, " # escaped\n", "  # } | h\n "]),
     })
 
 
